@@ -281,18 +281,30 @@ func (w *World) obsRegionCleanTo(u *Unit, o types.Object, def ast.Expr, only *fl
 		return !captured
 	})
 	if captured {
+		if os.Getenv("ZR_DEBUG_OBS") != "" {
+			fmt.Fprintf(os.Stderr, "  %s: captured by a function literal\n", o.Name())
+		}
 		return false
 	}
 	var D *flow.Site
 	for _, s := range u.Sites {
 		if s.Kind == flow.SStore && s.Local == o {
+			if _, plain := ast.Unparen(s.LHS).(*ast.Ident); !plain && s.LHS != nil {
+				continue // a store through the local (x[i] = …, x.f = …) does not define it
+			}
 			if D != nil {
+				if os.Getenv("ZR_DEBUG_OBS") != "" {
+					fmt.Fprintf(os.Stderr, "  %s: two defining stores %s %s\n", o.Name(), u.Pos(D.Pos), u.Pos(s.Pos))
+				}
 				return false
 			}
 			D = s
 		}
 	}
 	if D == nil {
+		if os.Getenv("ZR_DEBUG_OBS") != "" {
+			fmt.Fprintf(os.Stderr, "  %s: no defining store site\n", o.Name())
+		}
 		return false
 	}
 	mentions := func(e ast.Node) bool {
@@ -446,6 +458,9 @@ func (w *World) obsRegionCleanTo(u *Unit, o types.Object, def ast.Expr, only *fl
 		if U.Block == D.Block && D.SameBlockBefore(U) {
 			for _, m := range muts {
 				if m.Block == D.Block && D.SameBlockBefore(m) && m.SameBlockBefore(U) {
+					if os.Getenv("ZR_DEBUG_OBS") != "" {
+						fmt.Fprintf(os.Stderr, "  %s: %s between def and use (same block) at %s\n", o.Name(), m.Kind, u.Pos(m.Pos))
+					}
 					return false
 				}
 			}
